@@ -1,5 +1,6 @@
 import Hm.Response
 import Hm.ReqSys
+import Hm.C02
 
 def hexDigit (n : Nat) : Char := if n < 10 then Char.ofNat (48 + n) else Char.ofNat (87 + n)
 def hex (bs : Bytes) : String := String.ofList (bs.flatMap fun b => [hexDigit (b.toNat / 16), hexDigit (b.toNat % 16)])
@@ -101,6 +102,22 @@ def runResp (cfg : RespCfg) : List Bytes → RespState → Bytes → List String
           s!" | c={o.st.statusCode} p={hex o.st.reasonPhrase} h={showHeaders o.st.headers} b={hex o.st.body} x={hex o.st.trailer} r={showReserves (rs ++ o.reserves)}"
       | .incomplete => runResp cfg ds o.st (buf.drop o.consumed) (s!"I,{o.consumed}" :: acc) (rs ++ o.reserves)
 
+/-- the response protocol through the normalised `respSys`; the real parser's habit of swallowing the
+    rest of the completing delivery into `trailer` (declared-length framing only) is re-attached here -/
+def runRespSys : List Bytes → RespState → Bytes → List String → String
+  | [], _, _, acc => " ".intercalate acc.reverse ++ " |"
+  | d :: ds, s, pending, acc =>
+    let buf := pending ++ d
+    match respSys.parse s buf with
+    | .fail f => " ".intercalate (failStr f :: acc).reverse
+    | .ok .complete st n =>
+      let fixed := match st.phase with | .fixedBody _ => true | _ => false
+      let consumed := if fixed then buf.length else n
+      let trailing := if fixed then buf.drop n else []
+      " ".intercalate (s!"C,{consumed}" :: acc).reverse ++
+        s!" | c={st.statusCode} p={hex st.reasonPhrase} h={showHeaders st.headers} b={hex st.body} x={hex (st.trailer ++ trailing)}"
+    | .ok .incomplete st n => runRespSys ds st (buf.drop n) (s!"I,{n}" :: acc)
+
 def step (line : String) : String :=
   match line.trimAscii.toString.splitOn " " with
   | ["REQ", tree, ov, rl, hl, mx, tbl, ds] =>
@@ -113,7 +130,9 @@ def step (line : String) : String :=
     | _, _, _, _, _ => "bad-op"
   | ["RESP", tree, ov, hl, ds] =>
     match optNat hl, (ds.splitOn "|").mapM unhex with
-    | some hl, some ds => runResp { hl := hl, ov := ov = "1", tree := ⟨tree = "1"⟩ } ds Response.new [] [] []
+    | some hl, some ds =>
+      if tree = "1" && hl.isNone then runRespSys ds Response.new [] []
+      else runResp { hl := hl, ov := ov = "1", tree := ⟨tree = "1"⟩ } ds Response.new [] [] []
     | _, _ => "bad-op"
   | _ => "bad-op"
 
